@@ -369,6 +369,17 @@ var sessFails = []sessFail{
 	{'e', `for i = i:i+2 { boom() }`, "d"},
 	{'e', `pure(boom())`, "d"},
 	{'e', `deep(100000)`, "d"},
+	// depth overflow INSIDE a library function written in grol (seeded change C10-5: Reset walked the scope chain of the
+	// frame the panic left instead of going back to the session's root), and language errors inside one.  The map has more
+	// entries than the small MaxDepth of the "d" histories lets keys() walk; it is built in place so that no global is written.
+	{'e', `keys((() => { r9 = {}; for n9 = 450 { r9[n9] = 1 }; r9 })())`, "d"},
+	{'e', `(() => { keys((() => { r9 = {}; for n9 = 450 { r9[n9] = 1 }; r9 })()) })()`, "d"},
+	{'e', `for i = i:i+2 { keys((() => { r9 = {}; for n9 = 450 { r9[n9] = 1 }; r9 })()) }`, "d"},
+	{'e', `pure(len(keys((() => { r9 = {}; for n9 = 450 { r9[n9] = 1 }; r9 })())))`, "d"},
+	{'e', `abs("a")`, ""},
+	{'e', `log2("a")`, ""},
+	{'e', `printf("%d", 1 + "a")`, ""},
+	{'e', `keys(5)`, ""},
 	// deadline
 	{'t', `for true { }`, ""},
 	{'t', `(() => { for true { } })()`, ""},
